@@ -16,7 +16,8 @@
 
     division, floor division, modulo     polymath/qube.py:3408-3479, 3586-3606, 3722-3744
     mask_where_eq / lt / le / gt         polymath/extensions/mask_ops.py:78-241
-    sqrt log exp arcsin arccos           polymath/scalar.py:379-483, 551-673
+    sqrt log exp arcsin arccos           polymath/scalar.py:379-483, 551-700
+    _func_of_unmasked (fast paths)       polymath/scalar.py:551-573
     reciprocal                           polymath/scalar.py:1301-1343
     power                                polymath/scalar.py:1459-1621
     element_div                          polymath/vector.py:646-723
@@ -164,6 +165,22 @@ def powRaw (F : Fns K) (x e : K) (ie : Option IntExp) : PowRes K :=
     branch of `mask_where` (nothing selected / shapeless / array) does to one element -/
 def maskWhere (sel : Bool) (r : K) (x : Cell K) : Cell K := if sel then ⟨r, true⟩ else x
 
+/-! ### the check=False / nozeros=True fast paths
+
+`Scalar._func_of_unmasked` (scalar.py:551-573): the function is first applied to the whole
+array with warnings turned into errors; if that trips (`tripped`, an array-level fact: some
+element, masked or not, is outside the domain) it is re-applied with the values underneath the
+mask replaced by a safe constant, and only if THAT trips the documented ValueError is raised.
+So only an unmasked value can make the fast path raise. -/
+
+def fastEval (prim : K → Trap K) (safe : K) (tripped : Bool) (x : Cell K) : Trap K :=
+  match prim x.v with
+  | ok r => if tripped then (prim (if x.m then safe else x.v)).asError else ok r
+  | _ => (prim (if x.m then safe else x.v)).asError
+
+/-- did the first attempt trip on this element -/
+def trips (prim : K → Trap K) (x : Cell K) : Bool := !(prim x.v).isOk
+
 /-! ### division family -/
 
 /-- `_div_by_number` (qube.py:3408-3422) -/
@@ -193,9 +210,13 @@ def modByNumber (x : Cell K) (c : K) : Trap (Cell K) :=
   if isZero c then ok ⟨x.v, true⟩ else do let q ← pmod x.v c; ok ⟨q, x.m⟩
 
 /-- `Scalar.reciprocal` (scalar.py:1301-1343) -/
+def reciprocalFast (tripped : Bool) (x : Cell K) : Trap (Cell K) :=
+  do let q ← fastEval (pdiv one) one tripped x; ok ⟨q, x.m⟩
+
+/-- `nozeros = true` here is the one-element array (it trips iff this element does);
+    `reciprocalFast` is an element of a larger array -/
 def reciprocal (nozeros : Bool) (x : Cell K) : Trap (Cell K) :=
-  if nozeros then
-    do let q ← (pdiv one x.v).asError; ok ⟨q, x.m⟩
+  if nozeros then reciprocalFast (trips (pdiv one) x) x
   else
     let d := maskWhere (isZero x.v) one x
     do let q ← pdiv one d.v; ok ⟨q, d.m⟩
@@ -207,35 +228,47 @@ def rdivNumber (c : K) (x : Cell K) : Trap (Cell K) :=
 /-! ### guarded functions -/
 
 /-- `Scalar.sqrt` (scalar.py:551-590) -/
+def sqrtFast (F : Fns K) (tripped : Bool) (x : Cell K) : Trap (Cell K) :=
+  do let r ← fastEval (psqrt F) one tripped x; ok ⟨r, x.m⟩
+
 def sqrt (F : Fns K) (check : Bool) (x : Cell K) : Trap (Cell K) :=
   if check then
     let n := maskWhere (lt x.v zero) one x               -- mask_where_lt(0., replace=1.)
     do let r ← psqrt F n.v; ok ⟨r, n.m⟩
-  else do let r ← (psqrt F x.v).asError; ok ⟨r, x.m⟩
+  else sqrtFast F (trips (psqrt F) x) x
 
 /-- `Scalar.log` (scalar.py:593-629) -/
+def logFast (F : Fns K) (tripped : Bool) (x : Cell K) : Trap (Cell K) :=
+  do let r ← fastEval (plog F) one tripped x; ok ⟨r, x.m⟩
+
 def log (F : Fns K) (check : Bool) (x : Cell K) : Trap (Cell K) :=
   if check then
     let n := maskWhere (le x.v zero) one x               -- mask_where_le(0., replace=1.)
     do let r ← plog F n.v; ok ⟨r, n.m⟩
-  else do let r ← (plog F x.v).asError; ok ⟨r, x.m⟩
+  else logFast F (trips (plog F) x) x
 
 /-- `Scalar.exp` (scalar.py:632-673, repaired: RuntimeWarning is caught; overflowing elements
     are replaced by 0).  `EXP_CUTOFF = log(max float)` is the overflow threshold `F.expMax`. -/
+def expFast (F : Fns K) (tripped : Bool) (x : Cell K) : Trap (Cell K) :=
+  do let r ← fastEval (pexp F) zero tripped x; ok ⟨r, x.m⟩
+
 def exp (F : Fns K) (check : Bool) (x : Cell K) : Trap (Cell K) :=
   if check then
     let n := maskWhere (gt x.v F.expMax) zero x          -- mask_where_gt(EXP_CUTOFF, replace=0.)
     do let r ← pexp F n.v; ok ⟨r, n.m⟩
-  else do let r ← (pexp F x.v).asError; ok ⟨r, x.m⟩
+  else expFast F (trips (pexp F) x) x
 
 /-- `Scalar.arcsin` (scalar.py:379-430); `acos` selects arccos (scalar.py:432-483) -/
+def arcsinFast (F : Fns K) (acos : Bool) (tripped : Bool) (x : Cell K) : Trap (Cell K) :=
+  do let r ← fastEval (if acos then pacos F else pasin F) zero tripped x; ok ⟨r, x.m⟩
+
 def arcsin (F : Fns K) (acos : Bool) (check : Bool) (x : Cell K) : Trap (Cell K) :=
   let prim := if acos then pacos F else pasin F
   if check then
     let sel := lt x.v (-one) || gt x.v one               -- (values < -1) | (values > 1)
     let t : Cell K := if sel then ⟨zero, x.m || sel⟩ else x   -- temp_values[temp_mask] = 0.
     do let r ← prim t.v; ok ⟨r, t.m⟩
-  else do let r ← (prim x.v).asError; ok ⟨r, x.m⟩
+  else arcsinFast F acos (trips prim x) x
 
 /-- sin, cos, tan, arctan: total, mask passed through (scalar.py:312-377, 486-507) -/
 def total1 (f : K → K) (x : Cell K) : Trap (Cell K) := ok ⟨f x.v, x.m⟩
